@@ -28,8 +28,24 @@ def nested_event(kind, i, prot=3, ftype=2, tid=1):
     return E.ev(kind, 0, (0x7000 + i, (0x99 << 16) | (prot << 8) | ftype, 5, PID_BASE[0] + i), tid=tid)
 
 
-def run(events):
+TABLES = ['stock'] + ['minus:' + k for k in DECODED_KINDS] + ['plus:RealFaultAddressPurgeable']
+
+
+def decoded_kinds(table):
+    if table.startswith('minus:'):
+        return [k for k in DECODED_KINDS if k != table[6:]]
+    if table.startswith('plus:'):
+        return DECODED_KINDS + [table[5:]]
+    return DECODED_KINDS
+
+
+def run(events, table='stock'):
     p = TracesParser(E.codes(), {}, {})
+    # which kinds the tool decodes is the decoder table of the parser object that is fed: one withdrawn / one taught
+    if table.startswith('minus:'):
+        del p.handlers[table[6:]]
+    elif table.startswith('plus:'):
+        p.handlers[table[5:]] = p.handlers['RealFaultAddressInternal']
     return list(p.feed_generator(E.restamp(events)))
 
 
@@ -39,21 +55,22 @@ def prot_names(prot):
     return sorted(n for n, v in DW.VM_PROT.items() if v and v & prot and n != 'VM_PROT_WANTS_COPY')
 
 
-def judge_vmfault(nested, result, ftype, prot, pid_base=100):
+def judge_vmfault(nested, result, ftype, prot, pid_base=100, table='stock'):
     PID_BASE[0] = pid_base
     try:
-        return _judge_vmfault(nested, result, ftype, prot, pid_base)
+        return _judge_vmfault(nested, result, ftype, prot, pid_base, table)
     finally:
         PID_BASE[0] = 100
 
 
-def _judge_vmfault(nested, result, ftype, prot, pid_base):
+def _judge_vmfault(nested, result, ftype, prot, pid_base, table='stock'):
+    DECODED_KINDS = decoded_kinds(table)
     evs = [E.ev('MACH_vmfault', 1, (0xaaaa, 0xbbbb, 1, 0))]
     for i, k in enumerate(nested):
         evs.append(nested_event(k, i, prot=prot))
     evs.append(E.ev('MACH_vmfault', 2, (0, 0, result, ftype)))
     try:
-        out = run(evs)
+        out = run(evs, table)
         vm = [t for t in out if type(t).__name__ == 'MachVmfault']
         if len(vm) != 1:
             return ('vmfault-trace-count', {'n': len(vm)})
@@ -138,14 +155,15 @@ def judge_launch(nested):
 SAMPLE_ITEMS = ['T', 'H', 'D1', 'D2', 'W', 'O']   # THD_Data, UHdr, UData, UData, unrelated, other thread's UData
 
 
-def judge_sampler(flags, items, nframes):
+def judge_sampler(flags, items, nframes, hflags=1):
+    """hflags: the stack header's own flag word (valid bit set or not: the header is present either way)."""
     evs = [E.ev('PERF_Event', 1, (flags, 7, 0, 0))]
     words = []
     for i, it in enumerate(items):
         if it == 'T':
             evs.append(E.ev('PERF_THD_Data', 0, (55, 1, 0x66, 1)))
         elif it == 'H':
-            evs.append(E.ev('PERF_STK_UHdr', 0, (1, nframes, 0, 0)))
+            evs.append(E.ev('PERF_STK_UHdr', 0, (hflags, nframes, 0, 0)))
         elif it in ('D1', 'D2'):
             w = tuple(0x1000 * (i + 1) + j for j in range(4))
             words += list(w)
@@ -302,7 +320,7 @@ class C20(Check):
     level = 'model_checking'
     rule = ('page-fault windows: all nested sequences of <=3 (thorough <=4) over {Internal, External, SharedCache real-fault records, the undecoded '
             'Purgeable kind, unrelated decodable NONE, known-undecoded, unknown} x END result {0,1,5} x END fault type (all 11) with '
-            'one protection byte, plus all 256 protection bytes on a 1-record window with pid 100 and with pid 0; launch windows: all nested sequences of <=4 (thorough <=5) '
+            'one protection byte (END result {0,5}, type 2 also on parsers whose decoder table has one of the three kinds withdrawn or the Purgeable kind taught - which kinds the tool decodes is the table of the parser that is fed), plus all 256 protection bytes on a 1-record window with pid 100 and with pid 0; launch windows: all nested sequences of <=4 (thorough <=5) '
             'over {map_a@0x1000, map_a@0x2000 (two distinct), shared_cache_a@0x1800, shared_cache_a@0x2000, map_b, unrelated}; '
             'sampler windows: every subset of flags {TH_INFO, KSTACK, USTACK, other} x all sequences of <=4 (quick) / <=6 '
             '(thorough) over {THD_Data, UHdr, UData, UData, unrelated, other thread\'s UData} without repetition x header frame '
@@ -340,6 +358,13 @@ class C20(Check):
                                  outcome=h64(('vm', nested, result == 0)))
                         if bad:
                             acc.violation(bad[0], {'kind': 'vm', 'nested': list(nested), 'result': result, 'ftype': ftype, 'prot': 3}, bad[1])
+                        if ftype == 2 and result in (0, 5):
+                            for table in TABLES[1:]:
+                                bad = judge_vmfault(nested, result, ftype, 3, table=table)
+                                acc.case(nontrivial=len(nested) >= 2, transitions=len(nested) + 2, state=h64(('vm', nested, table)),
+                                         outcome=h64(('vm', nested, result == 0, table)))
+                                if bad:
+                                    acc.violation(bad[0] + '@other-decoder-table', {'kind': 'vm', 'nested': list(nested), 'result': result, 'ftype': ftype, 'prot': 3, 'table': table}, bad[1])
                         elif acc.want_sample() and len(nested) == 3 and result == 0:
                             acc.sample({'vmfault_nested': list(nested), 'result': result, 'fault_type': ftype})
         elif kind == 'vmprot':
@@ -387,18 +412,19 @@ class C20(Check):
                     for nframes in (0, 3, 4, 5, 9):
                         if 'H' not in items and nframes != 3:
                             continue
-                        bad = judge_sampler(flags, items, nframes)
-                        acc.case(nontrivial=len(items) >= 2, transitions=len(items) + 2, state=h64(('sa', items)),
-                                 outcome=h64(('sa', flags, 'T' in items, 'H' in items)))
-                        if bad:
-                            acc.violation(bad[0], {'kind': 'sampler', 'flags': flags, 'items': list(items), 'nframes': nframes}, bad[1])
-                        elif acc.want_sample() and len(items) == 4 and flags == 0x9:
+                        for hflags in ((1, 0, 0x104) if 'H' in items and flags in (0x8, 0x9) and nframes in (0, 3) else (1,)):
+                            bad = judge_sampler(flags, items, nframes, hflags)
+                            acc.case(nontrivial=len(items) >= 2, transitions=len(items) + 2, state=h64(('sa', items)),
+                                     outcome=h64(('sa', flags, 'T' in items, 'H' in items)))
+                            if bad:
+                                acc.violation(bad[0], {'kind': 'sampler', 'flags': flags, 'items': list(items), 'nframes': nframes, 'hflags': hflags}, bad[1])
+                        if not bad and acc.want_sample() and len(items) == 4 and flags == 0x9:
                             acc.sample({'sampler_flags': hex(flags), 'window': list(items), 'header_frames': nframes})
 
     def replay(self, case):
         k = case['kind']
         if k == 'vm':
-            bad = judge_vmfault(tuple(case['nested']), case['result'], case['ftype'], case['prot'], case.get('pid_base', 100))
+            bad = judge_vmfault(tuple(case['nested']), case['result'], case['ftype'], case['prot'], case.get('pid_base', 100), case.get('table', 'stock'))
         elif k == 'launch':
             bad = judge_launch(tuple(case['nested']))
         elif k == 'fpair':
@@ -408,7 +434,7 @@ class C20(Check):
         elif k == 'crossing':
             bad = judge_crossing(case['composite'], case['shape'])
         else:
-            bad = judge_sampler(case['flags'], tuple(case['items']), case['nframes'])
+            bad = judge_sampler(case['flags'], tuple(case['items']), case['nframes'], case.get('hflags', 1))
         return [bad] if bad else []
 
 
